@@ -257,7 +257,7 @@ example : ∃ es, TrieRun id (fun r => r = ⟨[], .leaf 1 [3] [65]⟩) (fun v =>
       (((insertE 1 [65] .empty [] [3]).2 ++ []) ++ []) (.leaf 1 [3] [65]) :=
     TrieRun.own 1 _ _ _ _ _ rfl hC (by intro r hr; simpa [insertE, eventRefs] using hr) (TrieRun.nil _)
   have hrun := TrieRun.merge (H := id) (U := fun r => r = ⟨[], .leaf 1 [3] [65]⟩) (Vok := fun v => v = 1) .empty (.leaf 1 [3] [65])
-    (.leaf 1 [3] [65]) (Trie.open [] .empty 1) _ [] ⟨rfl, rfl⟩ hchild (by decide) (TrieRun.nil _)
+    (.leaf 1 [3] [65]) (Trie.open [] .empty 1) _ [] _ ⟨rfl, rfl⟩ hchild (List.Perm.refl _) (by decide) (TrieRun.nil _)
   refine ⟨_, hrun, ?_⟩
   apply C04_complete_run id _ _ {} .empty _ (Trie.open [] .empty 1) _ ⟨rfl, rfl⟩ (by intro r h; simp [refs] at h)
     (Or.inl rfl) (by intro r h; simp [refs] at h) hrun
